@@ -266,6 +266,9 @@ class Elem:
             vals = [self.expr(v) for v in e.values]
             return sp.And(*vals) if isinstance(e.op, ast.And) else sp.Or(*vals)
         if isinstance(e, ast.Subscript):
+            if isinstance(e.value, ast.Attribute) and e.value.attr == "shape" and isinstance(e.slice, ast.Constant) and isinstance(e.slice.value, int):
+                # an array extent: an opaque positive integer (never an element value)
+                return sp.Symbol(f"DIM_{ast.unparse(e.value.value)}_{e.slice.value}".replace(".", "_"), positive=True, integer=True)
             base = self.expr(e.value)
             sl = e.slice
             elts = sl.elts if isinstance(sl, ast.Tuple) else [sl]
